@@ -1189,4 +1189,34 @@ theorem view_invariant_is_img_ok (v : View) (inv : C20.Inv v) (hne : ¬ (v.w = 0
     len_eq := by show v.len = v.pitch * (v.h - 1) + v.w * c.bpp; rw [hc]; exact inv.len_eq hne,
     len_le := hl }
 
+/-- the unit sizes of every row of the decoder table are admissible for the loops: block rows give a `BlkFn.Shape` (for the
+helper shape of matching block size) and fit the conversion buffer, bi-planar rows are in `PlanarCfg`'s ranges, pixel rows
+have an encoded size `1..255` -/
+theorem table_rows_admissible :
+    (Stream.formatTable.all fun row => match row.2 with
+      | .block bw bh bpb => decide (0 < bw ∧ bw < 16 ∧ 0 < bh ∧ bh < 16 ∧ 0 < bpb ∧ bpb < 256 ∧
+          bw * (16 * bh) ≤ TrapLoops.BUFFER_BYTES)
+      | .biPlanar p1 p2 sx sy => decide (0 < p1 ∧ p1 < 16 ∧ 0 < p2 ∧ p2 < 16 ∧ 0 < sx ∧ sx < 16 ∧ 0 < sy ∧ sy < 16)
+      | .pixel bpp _ => decide (0 < bpp ∧ bpp < 256)) = true := by
+  decide +kernel
+
+open TrapLoops in
+/-- glue: a block row of the table, decoded by a helper of its block size into a view of the native precision, satisfies
+`BlockCfg` for every native colour (so `block_loops_trapfree` applies to all 38 block / sub-sampled formats × every
+native / target colour pair) -/
+theorem block_cfg_from_table {name : String} {bw bh bpb : Nat} (hrow : (name, Fam.block bw bh bpb) ∈ Stream.formatTable)
+    (p : BlkFn) (hbx : p.bx = bw) (hby : p.by_ = bh) (h8 : p = .eight → bpb = 1) (img : Img) (ok : img.Ok)
+    (native : Color) (hprec : img.color.psz = native.psz) : BlockCfg img native p bpb native.bpp := by
+  have hall := List.all_eq_true.mp table_rows_admissible _ hrow
+  simp only [decide_eq_true_eq] at hall
+  obtain ⟨a1, a2, a3, a4, a5, a6, a7⟩ := hall
+  have hb := Color.bpp_bounds native (hprec ▸ ok.psz)
+  refine ⟨hprec, rfl, ⟨by omega, by omega, by omega, by omega, a5, h8, a6⟩, ?_⟩
+  rw [hbx, hby]
+  have : bw * (native.bpp * bh) ≤ bw * (16 * bh) := Nat.mul_le_mul_left _ (Nat.mul_le_mul_right _ hb.2)
+  omega
+
+/-- non-vacuity: BC7 is a row of the table -/
+example : ("BC7_UNORM", Fam.block 4 4 16) ∈ Stream.formatTable := by decide
+
 end Dds.C01
